@@ -127,3 +127,40 @@ fn c01_opt_options_total() {
     kani::cover!(matches!(a, Some(Ok(_))) && b.is_none(), "one option parsed");
     kani::cover!(matches!(a, Some(Err(_))), "malformed option rejected");
 }
+
+// @funcs: Message::from_octets, Message::{header,header_counts,is_error,as_slice}, Header::{id,qr,opcode,aa,tc,rd,ra,z,ad,cd,rcode}, HeaderCounts::{qdcount,ancount,nscount,arcount}
+// @bound: every octet string of 0..=14 symbolic octets offered as a message: accepted <=> at least 12 octets; every header accessor returns the RFC 1035 4.1.1 / RFC 2535 bit field of the 12 header octets (independent bit arithmetic); nothing panics
+// @outside: everything after the header
+#[kani::proof]
+#[kani::unwind(4)]
+fn c01_header_view_is_total_and_exact() {
+    use domain::base::Message;
+    let buf: [u8; 14] = kani::any();
+    let n: usize = kani::any();
+    kani::assume(n <= 14);
+    match Message::from_octets(&buf[..n]) {
+        Err(_) => assert!(n < 12),
+        Ok(m) => {
+            assert!(n >= 12);
+            let h = m.header();
+            assert!(h.id() == ((buf[0] as u16) << 8 | buf[1] as u16));
+            assert!(h.qr() == (buf[2] & 0x80 != 0));
+            assert!(h.opcode().to_int() == (buf[2] >> 3) & 0x0F);
+            assert!(h.aa() == (buf[2] & 0x04 != 0));
+            assert!(h.tc() == (buf[2] & 0x02 != 0));
+            assert!(h.rd() == (buf[2] & 0x01 != 0));
+            assert!(h.ra() == (buf[3] & 0x80 != 0));
+            assert!(h.z() == (buf[3] & 0x40 != 0));
+            assert!(h.ad() == (buf[3] & 0x20 != 0));
+            assert!(h.cd() == (buf[3] & 0x10 != 0));
+            assert!(h.rcode().to_int() == buf[3] & 0x0F);
+            let c = m.header_counts();
+            assert!(c.qdcount() == ((buf[4] as u16) << 8 | buf[5] as u16));
+            assert!(c.ancount() == ((buf[6] as u16) << 8 | buf[7] as u16));
+            assert!(c.nscount() == ((buf[8] as u16) << 8 | buf[9] as u16));
+            assert!(c.arcount() == ((buf[10] as u16) << 8 | buf[11] as u16));
+            assert!(m.is_error() == (buf[3] & 0x0F != 0));
+            assert!(m.as_slice().len() == n);
+        }
+    }
+}
